@@ -20,10 +20,11 @@ def run(check: Check) -> None:
     pct = 1500 if thorough else 100
     fns = {f: [None] for f in ("lm_lookup", "lm_len_iter", "lm_write", "lm_write_len", "lm_delete", "lm_with_layers", "lm_layer_names", "st_map", "st_simplify", "st_update_merge")}
     fns["sf_ops"] = ch_c19.sf_shards(-4, 3, 7) if thorough else ch_c19.sf_shards(-3, 2, 3)
+    fns["sf_more"] = [{"SHARD": k, "ORD": o, "R": (5 if thorough else 2), "NP": (7 if thorough else 3)} for k in range(6) for o in range(3)]
     for f in fns:
         check.functions.add(f"harness.ch_c19:{f}")
     check.functions.update({"formulaic.utils.layered_mapping:LayeredMapping.*", "formulaic.utils.structured:Structured._map/_flatten/_simplify/_update/_merge",
-                            "formulaic.formula:SimpleFormula.insert/__setitem__/__delitem__/_reorder"})
+                            "formulaic.formula:SimpleFormula.insert/__setitem__/__delitem__/__getitem__/_reorder (+ the MutableSequence mixin methods built on them)"})
     # native cross-validation: the same harness functions, untraced, over a concrete grid (vouches that CrossHair executed faithfully)
     import itertools
 
@@ -38,7 +39,14 @@ def run(check: Check) -> None:
             + [ch_c19.lm_layer_names({1: 2}, {3: 4}, k, 0, w) for k in (1, 3, 0) for w in (True, False)]
             + [f(i, 1, 2, 3, 4) for f in (ch_c19.st_map, ch_c19.st_simplify) for i in range(ch_c19.NSHAPES)]
             + [ch_c19.st_update_merge(i, 1, 2, 3, 4, 9) for i in range(ch_c19.NSHAPES)]
-        ) and all(_sf_grid(o) for o in (0, 1, 2))
+        ) and all(_sf_grid(o) for o in (0, 1, 2)) and all(_sf_more_grid(k, o) for k in range(6) for o in range(3))
+
+    def _sf_more_grid(k, o):
+        ch_c19.__dict__.update({"__SHARD__": k, "__ORD__": o, "__R__": 5, "__NP__": 7})
+        try:
+            return all(ch_c19.sf_more(k, i, j, t, u, o) for i in range(-5, 6) for j in range(-5, 6) for t in range(7) for u in range(0, 7, 2))
+        finally:
+            ch_c19.__dict__.update({"__SHARD__": 0, "__ORD__": 0, "__R__": 5, "__NP__": 3})
 
     def _sf_grid(o):
         ch_c19.__dict__.update({"__ORD__": o, "__LO__": -4, "__HI__": 3, "__NP__": 7})
@@ -59,6 +67,9 @@ def run(check: Check) -> None:
         probes = [(f, a, {}) for f, a in probes]
         for o in (0, 1, 2):
             probes += [("sf_ops", [a, i, t, b, j, u], {"__ORD__": o, "__LO__": -4, "__HI__": 3, "__NP__": 7}) for a in range(3) for b in range(3) for i in range(-4, 4) for j in range(-4, 4) for t in range(7) for u in range(0, 7, 2)]
+        for k in range(6):
+            for o in (0, 1, 2):
+                probes += [("sf_more", [k, i, j, t, u, o], {"__SHARD__": k, "__ORD__": o, "__R__": 5, "__NP__": 7}) for i in range(-5, 6) for j in range(-5, 6) for t in range(7) for u in range(0, 7, 2)]
         reported = set()
         for fname, args, glob in probes:
             saved = {k: ch_c19.__dict__[k] for k in glob}
